@@ -29,6 +29,12 @@ def make_plan(seed: int, tier: str, opts: dict) -> dict:
         else:
             st = {f: r.random() < 0.5 for f in FIELDS}
             st["max_records"] = r.choice([20000, 20000, 5, 3, 1])
+            if r.random() < 0.35:
+                # per-node dictionaries (the documented alternative to one global flag); nodes that are not named keep their previous setting,
+                # so the expectation below is tracked per node
+                names_ = [nd["name"] for nd in spec["nodes"]]
+                st = {f: {n_: r.random() < 0.5 for n_ in names_} for f in FIELDS}
+                st["max_records"] = {n_: r.choice([20000, 20000, 4, 2]) for n_ in names_}
         ep["record_settings"] = st
         settings.append(st)
     wall = r.random() < opts.get("wall_p", 0.15)
@@ -148,6 +154,8 @@ def run_plan(plan: dict, replay=None) -> dict:
             steps = r_.steps
             K_ = len(onp.asarray(steps.seq))
             n_exec = sum(1 for key in ev_idx if names[key[0]] == n)
+            st_all = st
+            st = {k_: (v_[n] if isinstance(v_, dict) else v_) for k_, v_ in st_all.items()}  # this node's settings
             for f in ("rng", "inputs", "state", "output"):
                 if (getattr(steps, f) is not None) != bool(st[f]):
                     viol.append(dict(clause="c13-record-contains-exactly-the-requested-fields", signature="c13-fields", variant=j, node=n, field=f, settings=st))
@@ -175,6 +183,7 @@ def run_plan(plan: dict, replay=None) -> dict:
                     if nxt != ev["h1"]:
                         viol.append(dict(clause="c13-state-before-step-k+1-is-state-returned-by-step-k", signature="c13-chain", variant=j, node=n, tick=k, recorded=nxt, actual=ev["h1"]))
                         break
+            st = st_all
     # (c) compiled runtime
     cc = plan.get("compile")
     c_rows = 0
